@@ -87,7 +87,9 @@ class Choices:
                 got += take
             if v < span:
                 return lo + v
-            if self._rng is None:
+            # rejection: draw again -- in replay mode too, so that a recorded list replays to
+            # exactly the same values; only an exhausted (shrunk) list falls back to a modulo
+            if self._rng is None and self._pos >= len(self._rec):
                 return lo + (v % span)
 
     def bytes(self, n):
